@@ -211,6 +211,14 @@ static void buildCatalogue() {
     g_ops.push_back({"ctx-reconfigure-endpoints", [](KSI_CTX *ctx, St &) { return KSI_CTX_setAggregator(ctx, "ksi+http://a0.example.test/aggr", "user0", "key0") == KSI_OK && KSI_CTX_setExtender(ctx, "ksi+tcp://e0.example.test:4440", "user0", "key0") == KSI_OK && KSI_CTX_setPublicationUrl(ctx, "http://p0.example.test/pub0.bin") == KSI_OK; },
         [](KSI_CTX *ctx, St &) { Result r; r.code = KSI_CTX_setAggregator(ctx, "ksi+http://a1.example.test:8080/aggregator-service", "another-user", "another-key"); if (r.code == KSI_OK) r.code = KSI_CTX_setExtender(ctx, "ksi+tcp://e1.example.test:4441", "another-user", "another-key");
             if (r.code == KSI_OK) r.code = KSI_CTX_setPublicationUrl(ctx, "http://p1.example.test/publications-file.bin"); if (r.code == KSI_OK) r.code = KSI_CTX_setAggregator(ctx, "file:///nonexistent/aggr-response.tlv", "u", "k"); if (r.code == KSI_OK) r.code = KSI_CTX_setExtender(ctx, "ksi+http://e2.example.test/ext", "u2", "k2"); return r; }});
+    // verification whose extender answers with an error status / is unreachable: the inconclusive result carries a status message that is copied around
+    g_ops.push_back({"verify-calendar-based-extender-error", withSigB, [verdictOf](KSI_CTX *ctx, St &st) { resetSim(); g_srv = Server(); g_srv.respond = [](const Bytes &req, int) -> Bytes { ReqInfo ri = parseRequest(req); if (!ri.ok || ri.isAggr) return Bytes(); Header h; h.login = "ext"; return sealV2(0x321, h, {extRespPayload(2, ri.reqId, true, 0x0101, "the request could not be served", nullptr, false, 0)}, keyB(), 1); }; g_srv.attach();
+        KSI_CTX_setExtender(ctx, "ksi+tcp://ext.example.test:4444", kLogin.c_str(), kKey.c_str()); KSI_VerificationContext vc; KSI_VerificationContext_init(&vc, ctx); vc.signature = st.sig; KSI_PolicyVerificationResult *res = nullptr; int c = KSI_SignatureVerifier_verify(KSI_VERIFICATION_POLICY_CALENDAR_BASED, &vc, &res); Result r = verdictOf(c, res);
+        KSI_PolicyVerificationResult_free(res); vc.signature = nullptr; KSI_VerificationContext_clean(&vc); return r; }});
+    g_ops.push_back({"verify-general-unreachable-services", withSigB, [verdictOf](KSI_CTX *ctx, St &st) { resetSim(); sim::net().onConnect = [](sim::Conn &) { return sim::CP_REFUSE; }; KSI_CTX_setExtender(ctx, "ksi+tcp://ext.example.test:4444", kLogin.c_str(), kKey.c_str()); KSI_CTX_setPublicationUrl(ctx, "http://pub.example.test/publications.bin");
+        KSI_VerificationContext vc; KSI_VerificationContext_init(&vc, ctx); vc.signature = st.sig; vc.extendingAllowed = 1; KSI_PolicyVerificationResult *res = nullptr; int c = KSI_SignatureVerifier_verify(KSI_VERIFICATION_POLICY_GENERAL, &vc, &res); Result r = verdictOf(c, res); KSI_PolicyVerificationResult_free(res); vc.signature = nullptr; KSI_VerificationContext_clean(&vc); return r; }});
+    // non-default option: no data-hash recycle pool (every hash computed during verification is a fresh allocation)
+    g_ops.push_back({"signature-parse-and-verify-without-hash-pool", none, [](KSI_CTX *ctx, St &) { Result r; r.code = KSI_CTX_setOption(ctx, KSI_OPT_DATAHASH_CACHE_SIZE, (void *)(size_t)0); KSI_Signature *s = nullptr; HeapBuf in(g_sigA); if (r.code == KSI_OK) r.code = KSI_Signature_parse(ctx, in.p, in.n, &s); if (r.code == KSI_OK) r.out = sigHex(s).substr(0, 64); KSI_Signature_free(s); return r; }});
 }
 
 static Result runClean(size_t oi, uint64_t *allocs) {
@@ -243,7 +251,7 @@ static void faultCase(size_t oi, int mode, uint64_t n, uint64_t n2, Case &c) {
         g_alloc.arm(mode == 2 ? 0 : n, mode == 1 ? n + n2 : 0, mode == 2 ? n : 0); Result r1 = op.body(ctx, st); uint64_t fired = g_alloc.fired; g_alloc.disarm();
         c.nontrivial = fired > 0; c.cls(fired ? (r1.code != KSI_OK ? "fault:error-returned" : "fault:completed-anyway") : "fault:not-reached");
         if (r1.corrupt) VF_FAIL(c, "C19:" + on + ":corrupt-state", "after a failed allocation: " + r1.note + " (" + c.desc + ")");
-        else if (r1.code == KSI_OK && fired && r1.inconclusive && !want.inconclusive) c.cls("fault:inconclusive-verdict");
+        else if (r1.code == KSI_OK && fired && r1.inconclusive) c.cls("fault:inconclusive-verdict");
         else if (r1.code == KSI_OK && !(r1 == want)) VF_FAIL(c, "C19:" + on + ":wrong-result-reported-as-success", std::string(fired ? "with" : "without") + " an injected failure the call returned OK but its result differs from the fault-free one (" + c.desc + "): got '" + r1.out.substr(0, 60) + "' want '" + want.out.substr(0, 60) + "'");
         else if (!fired && r1.code != KSI_OK) VF_FAIL(c, "C19:" + on + ":error-without-fault", "no allocation failed but the call returned " + num(r1.code) + " (" + c.desc + ")");
         if (!c.fail) { Result r2 = op.body(ctx, st); // same context, same objects, no fault
